@@ -2,27 +2,27 @@
    Property theorems only; proofs live in Proofs/MapRefine*.v, MapSweep.v,
    MapExpiry*.v and MapCorollaries.v. *)
 From Coq Require Import List NArith ZArith Bool.
-From Cfg Require Import Model.MapHub Model.MapSpec Proofs.MapBase Proofs.MapExpiry Proofs.MapSweep Proofs.MapCorollaries.
+From Cfg Require Import Model.MapHub Model.MapSpec Proofs.MapBase Proofs.MapExpiry Proofs.MapSweep Proofs.MapCorollaries Proofs.MapRetention.
 Import ListNotations.
 Open Scope N_scope.
 
 (* For ALL channel configurations and ALL sequences of publish (every subset
    of idempotency / version / key mode / CAS / TTL refresh / delta options),
-   remove, clear, read-state, read-stream, clock advances and whole expiry
-   key-expiry sweeps, everything the model of the memory map broker returns and
+   remove, clear, read-state, read-stream, clock advances, StreamTTL / MetaTTL
+   sweep iterations and whole key-expiry sweeps, everything the model of the memory map broker returns and
    broadcasts, operation by operation, is what the reference map
    (Model/MapSpec.v: state = fold of the unsuppressed operations, full log,
    checks decided in the order version, key mode, CAS, one log entry and one
    broadcast per accepted operation of a stream-backed channel, expiry in
    deadline order) returns and broadcasts. *)
-(* [ref_op] excludes the atomic sweep phases (C24) and, for now, the two retention
-   sweep iterations OExpireStreams / ORemoveChannels: the model and the reference map
-   contain them and both are compared with the real sweepers on every run, but the
-   refinement proof below does not cover them yet (partial for the retention half). *)
+(* [seq_op] = every operation except the two atomic phases of the key sweep (their
+   interleavings are C24): it includes one iteration of the StreamTTL sweeper
+   (OExpireStreams) and of the MetaTTL sweeper (ORemoveChannels), whose heap + loop are
+   proved to expire exactly the channels whose stream / metadata deadline has passed. *)
 Theorem C20_refines :
-  forall cfgs ops, forallb ref_op ops = true ->
+  forall cfgs ops, forallb seq_op ops = true ->
     run_obs cfgs hub0 ops = spec_obs cfgs sstate0 ops.
-Proof. exact refines. Qed.
+Proof. exact refines_all. Qed.
 Print Assumptions C20_refines.
 
 (* Check order on the model, for every state: the reason returned by
@@ -124,4 +124,18 @@ Example C20_ex_expiry :
   = [RUpd (URes (1, 1) false RNone None); RUnit; RUnit;
      RState (StOk [] (2, 1) []);
      RStream (SOk [mkPub [97] 1 1 None false 0%Z; mkPub [97] 2 0 None true 0%Z] (2, 1))].
+Proof. vm_compute. reflexivity. Qed.
+
+(* retention half, non-vacuity: a stream expires (entries gone, offsets and epoch stay),
+   then the metadata expires (fresh epoch) *)
+Example C20_ex_retention :
+  map fst (run_obs [mkRaw 2 2 3 1 2 false] hub0
+    [OPublish 0 [97] (ex_po 1 0 KReplace None); OAdvance 1; OExpireStreams; ORemoveChannels;
+     OReadStream 0 None (-1)%Z false; OPublish 0 [98] (ex_po 2 0 KReplace None);
+     OReadStream 0 None (-1)%Z false; OAdvance 2; OExpireStreams; ORemoveChannels;
+     OReadState 0 None [] (-1)%Z [] false])
+  = [RUpd (URes (1, 1) false RNone None); RUnit; RUnit; RUnit;
+     RStream (SOk [] (1, 1)); RUpd (URes (2, 1) false RNone None);
+     RStream (SOk [mkPub [98] 2 2 None false 0%Z] (2, 1)); RUnit; RUnit; RUnit;
+     RState (StOk [] (0, 2) [])].
 Proof. vm_compute. reflexivity. Qed.
